@@ -903,6 +903,22 @@ func c14StressOracle(st *c14Stress) []string {
 	return bad
 }
 
+// c14KeyFinerThanRequest: class predicate of known finding C14-range-cache-key-finer-than-request.  The ONLY thing wrong with the
+// run is that a /api/v1/query_range request whose start or end is not second-aligned (i.e. derived from the caller's time.Now()) was
+// answered successfully more than once - never concurrently (the key lock serialises the callers), and every other clause holds.
+func c14KeyFinerThanRequest(st *c14Stress, bad []string) bool {
+	if len(bad) != 1 || st.MaxPerKey > 1 || st.Hung || !strings.HasPrefix(bad[0], "the server answered the identical request "+promapi.APIPathQueryRange+"?") {
+		return false
+	}
+	frac := false
+	for _, kv := range strings.Split(st.SuccessKey, "&") {
+		if (strings.HasPrefix(kv, "start=") || strings.HasPrefix(kv, "end=")) && strings.Contains(kv, ".") {
+			frac = true
+		}
+	}
+	return frac
+}
+
 func c14GenStress(r *rand.Rand, id int, directed int) *c14Stress {
 	st := &c14Stress{ID: id, Pool: []int{1, 2, 3, 4, 8, 16}[r.Intn(6)], DelayMs: []int{0, 1, 2, 5, 10}[r.Intn(5)], Rounds: 1 + r.Intn(2)}
 	pool := []c14Question{
@@ -1163,7 +1179,11 @@ func runC14(args []string) int {
 			if st.SharedSlices {
 				sharedHit++
 			}
-			rep.fail(fmt.Sprint(st.ID), what, st)
+			if c14KeyFinerThanRequest(st, bad) {
+				rep.failKnown(fmt.Sprint(st.ID), what+" [the two callers' time.Now() fell into the same 238 ns bucket of the float the request carries, while the cache key has nanosecond precision]", st, "C14-range-cache-key-finer-than-request")
+			} else {
+				rep.fail(fmt.Sprint(st.ID), what, st)
+			}
 		}
 		if len(rep.Samples) < 5 && st.ID%7 == 0 {
 			rep.sample(st)
@@ -1232,8 +1252,9 @@ func c14Replay(path string) int {
 		return 0
 	}
 	for k := 0; k < 5; k++ {
-		run := st
-		run.Results, run.HeldAtEnd = nil, nil
+		// inputs only: the stored case also carries what was observed when it was recorded
+		run := c14Stress{ID: st.ID, Pool: st.Pool, Callers: st.Callers, Questions: st.Questions, DelayMs: st.DelayMs, Rounds: st.Rounds,
+			Cleaner: st.Cleaner, Sweep: st.Sweep, SharedSlices: st.SharedSlices}
 		c14RunStress(&run, int64(k))
 		bad := c14StressOracle(&run)
 		fmt.Printf("run %d: pool=%d callers=%d max_identical_inflight=%d max_total_inflight=%d max_success_per_request=%d results=%v\n", k, run.Pool, len(run.Callers), run.MaxPerKey, run.MaxTotal, run.MaxSuccess, run.Results)
